@@ -69,16 +69,8 @@ def flag_guards(p):
         "reset_dict": [blk.idx for blk in p.calls() if (flow.callee(blk.term) or "").endswith("LzAccumBuffer::reset")],
         "reset_state": [blk.idx for blk in p.calls() if (flow.callee(blk.term) or "").endswith("DecoderState::reset_state")],
     }
-    # the properties byte: the read_u8 whose value is range-checked against 225 / split by 9 and 5
-    props_reads = []
-    for blk in p.calls():
-        if (flow.declared(blk.term) or "").endswith("read_u8"):
-            used = False
-            for (bb, t, z, nz) in pat.guards(p)[0]:
-                if pat.has_const(t, 225) and any(q[0] == "call" and len(q) > 3 and q[3] == blk.idx for q in _sub(t)):
-                    used = True
-            if used:
-                props_reads.append(blk.idx)
+    # the properties byte: the only single-byte read of the chunk parser (the control byte is a parameter, sizes are u16)
+    props_reads = [blk.idx for blk in p.calls() if (flow.declared(blk.term) or "").endswith("read_u8")]
     actions["reset_props"] = props_reads
     out = {}
     for blk in p.blocks:
